@@ -41,6 +41,7 @@ type Case struct {
 	Scen  string `json:"scen"`  // C27: server authentication scenario ("" = Trusted)
 	CScen string `json:"cscen"` // C27: client certificate scenario ("" = NoClientCert)
 	CKey  string `json:"ckey"`  // C27: client key type ("" = "E")
+	CAs   string `json:"cas"`   // C27: the server's ClientCAs: "" / "with" (pool with the client's root), "without" (pool with another root), "empty" (empty pool), "nil"
 }
 
 var versMap = map[int]uint16{10: tls.VersionTLS10, 11: tls.VersionTLS11, 12: tls.VersionTLS12, 13: tls.VersionTLS13}
@@ -117,6 +118,7 @@ type PKI struct {
 	ClientChain [][]byte
 	ClientKey   crypto.PrivateKey
 	ServerCAs   [][]byte // DER of the roots the server trusts for client certificates
+	NilCAs      bool     // Config.ClientCAs is left nil (nothing configured; the system pool of this sandbox holds none of the harness roots)
 	// what the scenario is supposed to be, re-derived from the real objects with the standard
 	// library (rule 2); filled by Check.
 }
@@ -127,7 +129,8 @@ var pkiServerScen = map[string]bool{"": true, "Trusted": true, "UntrustedRoot": 
 	"WrongName": true, "WrongKey": true, "BadLeafSig": true,
 	"NameIP4Listed": true, "NameIP4Unlisted": true, "NameIP6BracketListed": true, "NameIP6BracketUnlisted": true,
 	"NameIP6ZoneListed": true, "NameDNSTrailingDot": true,
-	"CorruptSKXSig": true, "CorruptSKXParams": true, "CorruptServerFinished": true, "CorruptClientFinished": true, "CorruptClientCV": true}
+	"CorruptSKXSig": true, "CorruptSKXParams": true, "CorruptServerFinished": true, "CorruptClientFinished": true, "CorruptClientCV": true,
+	"SigEmpty": true, "SigShort": true, "SigLong": true}
 
 // BuildPKI concretises the certificates and keys of a case.
 func BuildPKI(cs Case) (*PKI, error) {
@@ -176,7 +179,18 @@ func BuildPKI(cs Case) (*PKI, error) {
 	}
 	p.ServerChain = [][]byte{certCache.Get(leaf), certCache.Get(chainInter)}
 	p.ClientRoots = [][]byte{certCache.Get(rootCert("A"))}
-	p.ServerCAs = [][]byte{certCache.Get(rootCert("A"))}
+	switch cs.CAs {
+	case "", "with":
+		p.ServerCAs = [][]byte{certCache.Get(rootCert("A"))}
+	case "without":
+		p.ServerCAs = [][]byte{certCache.Get(rootCert("B"))}
+	case "empty":
+		p.ServerCAs = [][]byte{}
+	case "nil":
+		p.ServerCAs, p.NilCAs = [][]byte{}, true
+	default:
+		return nil, fmt.Errorf("tlsh: unknown ClientCAs class %q", cs.CAs)
+	}
 
 	ck := cs.CKey
 	if ck == "" {
@@ -188,7 +202,7 @@ func BuildPKI(cs Case) (*PKI, error) {
 	cinter := interCert("A")
 	switch cs.CScen {
 	case "", "NoClientCert":
-	case "ClientTrusted", "CorruptClientCV":
+	case "ClientTrusted", "CorruptClientCV", "ClientSigEmpty", "ClientSigShort", "ClientSigLong":
 		p.ClientKey = PrivKey(ck + "_cli")
 	case "ClientUntrusted":
 		cleaf.ID, cleaf.Iss, cleaf.SKey, cleaf.AKID = "cliB-"+ck, "IntB", "K_intB", "K_intB"
@@ -366,6 +380,9 @@ func Build(cs Case, verifyServer bool) (*Built, error) {
 		ClientAuth:               tls.ClientAuthType(cs.S.Auth),
 		ClientCAs:                pool(p.ServerCAs),
 		Certificates:             []tls.Certificate{{Certificate: p.ServerChain, PrivateKey: p.ServerKey}},
+	}
+	if p.NilCAs {
+		sc.ClientCAs = nil
 	}
 	b.Server = sc
 	if err := b.readBack(); err != nil {
